@@ -34,6 +34,7 @@ func vIsSymbolic() bool          { panic("symgo") }
 func vOpenFiles() int            { panic("symgo") }
 func vZipContent(name, content string) { panic("symgo") }
 func vFileContent(name, content string) { panic("symgo") }
+func vZipHandle(rc any)          { panic("symgo") }
 `
 
 const rtNative = `//go:build verif_harness
@@ -132,6 +133,7 @@ func vObserveStr(label string, s string) { fmt.Printf("SYMGO-OBS %s=%q\n", label
 func vIsSymbolic() bool     { return false }
 func vOpenFiles() int       { return 0 }
 func vZipContent(name, content string) {}
+func vZipHandle(rc any)                  {}
 // native: the file model becomes a real file, so os.Open(name) reads the same bytes
 func vFileContent(name, content string) {
 	if err := os.WriteFile(name, []byte(content), 0o600); err != nil {
